@@ -117,7 +117,35 @@ def build_workchain(outline, oracle):
     return register(klass)
 
 
+def dump(bundle, medium):
+    """serialise once (at checkpoint time) ..."""
+    if medium == 'none':
+        return bundle
+    if medium == 'copy':
+        return copy.deepcopy(bundle)
+    if medium == 'pickle':
+        return pickle.dumps(bundle)
+    if medium == 'yaml':
+        return yaml.dump(bundle)
+    raise ValueError(medium)
+
+
+def load(dumped, medium):
+    """... and load afresh for every restore (a loaded process shares mutable members with the bundle object it was loaded from)"""
+    if medium == 'none':
+        return dumped
+    if medium == 'copy':
+        return copy.deepcopy(dumped)
+    if medium == 'pickle':
+        return pickle.loads(dumped)
+    if medium == 'yaml':
+        return yaml.load(dumped, Loader=yaml.Loader)
+    raise ValueError(medium)
+
+
 def through(bundle, medium):
+    if medium == 'none':                 # the bundle as Bundle(process) built it, not serialised
+        return bundle
     if medium == 'copy':
         return copy.deepcopy(bundle)
     if medium == 'pickle':
